@@ -111,6 +111,8 @@ def make_recording_device():
         def attach_memory(self, device_memory) -> None:  # type: ignore[no-untyped-def]
             self.memory = device_memory
             self.attach_count += 1
+            if self.on_call is not None and getattr(self, 'call_on_attach', False):
+                self.on_call(self, 'a', -1)   # a device may already read and patch the program when it is attached
 
         def read_bit(self) -> bool:
             if self._atomic:
